@@ -16,17 +16,21 @@ func init() {
 			r.Rule("R15.7", 6, "typestate of tables reset by Close")
 			r.Rule("R15.8", 12, "nil-argument validation precedes use")
 			r.Rule("R15.9", 1, "AddProviderDeferred fails only for a nil provider")
-			ruleRecover(w, r, "R15.1")
-			ruleErrChainUnwrap(w, r, "R15.2")
-			ruleErrorfWraps(w, r, "R15.3")
-			ruleSentinelUse(w, r, "R15.4")
-			ruleCausePreserved(w, r, "R15.4c")
-			ruleCommitAfterValidate(w, r, "R15.5")
-			ruleResolveWritesNothing(w, r, "R15.5b")
-			rulePanics(w, r, "R15.6")
-			checkTypestateAs(w, r, la, "R15.7")
-			ruleNilArgs(w, r, "R15.8")
-			ruleDeferredAddTotal(w, r, "R15.9")
+			r.Try(func() { ruleRecover(w, r, "R15.1") })
+			r.Try(func() { ruleErrChainUnwrap(w, r, "R15.2") })
+			r.Try(func() { ruleErrorfWraps(w, r, "R15.3") })
+			r.Try(func() { ruleSentinelUse(w, r, "R15.4") })
+			r.Try(func() { ruleCausePreserved(w, r, "R15.4c") })
+			r.Try(func() { ruleCommitAfterValidate(w, r, "R15.5") })
+			r.Try(func() { ruleResolveWritesNothing(w, r, "R15.5b") })
+			r.Try(func() { rulePanics(w, r, "R15.6") })
+			r.Try(func() { checkTypestateAs(w, r, la, "R15.7") })
+			r.Try(func() { ruleNilArgs(w, r, "R15.8") })
+			r.Try(func() { ruleDeferredAddTotal(w, r, "R15.9") })
+			r.Rule("R15.10", 1, "the invoker looks for the constructor's error where the analyzer recognises it: in the last result")
+			r.Try(func() { ruleConstructorErrorPosition(w, r, "R15.10") })
+			r.Rule("R15.11", 2, "'circular' is classifiable for every cycle: the whole-graph check that produces the typed error starts a search from every node and follows every edge")
+			r.Try(func() { ruleSearchComplete(w, r, "R15.11") })
 		})
 	register("C16",
 		"Structural necessary conditions of the middleware protocol, decided per integration on the per-request function's control-flow graph and then compared across the five siblings: one CreateScope(request context) on the captured provider; creation error -> error handler, return; a close guarantee in force before any user callback (deferred Close; fiber: Locals + explicit Close + fasthttp lemma checked in the fasthttp source); scope.Context() attached before middlewares/next and flowing on; middlewares in slice order with that scope, error -> error handler, return, next unreachable; next exactly once on the normal path; Handle: recover only under cfg.PanicRecovery, scope from the request, matching error handler on each failure edge, method dominated by both successes and given the resolved controller. ISO: no mutable resolution state shared between requests (record confinement). NOT decided: status codes, behaviour of the frameworks beyond the lemma.",
@@ -46,16 +50,16 @@ func init() {
 			r.Rule("R19.2", 4, "degrees are recomputed after the last change (deferred add: by DetectCycles, first thing)")
 			r.Rule("R19.3", 3, "rollback of a rejected add restores the previous state")
 			r.Rule("R19.4", 60, "every access to the graph's fields holds its mutex (R09.1 restricted to the graph)")
-			checkGraphCaches(w, r, "R19.1", "R19.2", "R19.1c")
-			ruleRollback(w, r, "R19.3")
+			r.Try(func() { checkGraphCaches(w, r, "R19.1", "R19.2", "R19.1c") })
+			r.Try(func() { ruleRollback(w, r, "R19.3") })
 			r.Rule("R19.5", 1, "no slice stored in the graph's tables is rewritten in place through a [:0] reslice")
-			ruleNoInPlaceReuse(w, r, "R19.5")
+			r.Try(func() { ruleNoInPlaceReuse(w, r, "R19.5") })
 			r.Rule("R19.6", 1, "the degree recomputation counts every edge")
-			ruleDegreeCountsEveryEdge(w, r, "R19.6")
+			r.Try(func() { ruleDegreeCountsEveryEdge(w, r, "R19.6") })
 			sub := NewReport(r.Prop, r.Tier, w)
 			sub.Rule("R09.1", 0, "")
 			sub.Rule("R09.1u", 0, "")
-			checkDiscipline(w, sub, la, func(ss sharedStruct) bool { return ss.pkg == "graph" })
+			r.Try(func() { checkDiscipline(w, sub, la, func(ss sharedStruct) bool { return ss.pkg == "graph" }) })
 			for _, o := range sub.Obs {
 				o.Rule = "R19.4"
 				r.Obs = append(r.Obs, o)
